@@ -31,7 +31,8 @@ def parseEv (j : Json) : Option Ev :=
       tradErr := getNat j "terr", tradObjs := (getArr j "objs").filterMap jsonToNat?,
       max := intArg j "max", timeout := intArg j "timeout", lang := langOf ((getNat j "lang").getD 0),
       query := (getBool j "query").getD false, coe := (getBool j "coe").getD false,
-      rqrc := (getBool j "rqrc").getD false })
+      rqrc := (getBool j "rqrc").getD false, coeType := (getBool j "coetype").getD false,
+      filterType := (getBool j "filtertype").getD false })
   | some "next" => some (.next ((getNat j "g").getD 0))
   | some "close" => some (.close ((getNat j "g").getD 0))
   | some "drop" => some (.drop ((getNat j "g").getD 0))
@@ -54,7 +55,7 @@ def resToJson : Res → Json
 def opToJson : SrvOp → List Json
   | .open f => ["open", (f.idx : Nat)]
   | .pull f => ["pull", (f.idx : Nat)]
-  | .close => ["close", Json.null]
+  | .close _ => ["close", Json.null]
   | .trad f => ["trad", (f.idx : Nat)]
 
 def logToJson (e : SrvOp × Option PyExc) : Json :=
@@ -68,7 +69,8 @@ def runEvents (w : World) (evs : List Ev) : List Json :=
   | [] => []
   | ev :: rest =>
     let r := stepW w ev
-    let newLog := r.1.conn.log.drop w.conn.log.length
+    -- an Open stopped by the client-side type check never reached the wire
+    let newLog := (r.1.conn.log.drop w.conn.log.length).filter (fun e => e.2 != some PyExc.typeError)
     Json.mkObj [("res", resToJson r.2), ("flags", flagsToJson r.1.conn.flags),
                 ("open", natArr (r.1.conn.srv.ctxs.map (·.id))),
                 ("log", Json.arr (newLog.map logToJson).toArray)] :: runEvents r.1 rest
